@@ -10,7 +10,7 @@ VERIF = os.path.dirname(os.path.dirname(os.path.abspath(__file__)))
 REPO = os.environ.get('VERIF_REPO', '/repo')
 
 EXPECTED_ASSUMPTIONS = {
-    'assume_specification': 4,   # u8::count_ones, char::from(u8), u16/u8::from(bool)   (Kani-discharged)
+    'assume_specification': 5,   # u8::count_ones, char::from(u8), u16/u8::from(bool), char::from_u32   (Kani-discharged)
     'external_body': 5,          # the five Modifiers predicates               (Kani-discharged)
 }
 
